@@ -197,7 +197,16 @@ pub fn decision_scenario(ch: &mut Chooser, events: usize, max_rules: usize) -> E
             2 => {
                 let k = ch.choose("remove_which", guards.len());
                 let (id, g) = guards.remove(k);
-                drop(g);
+                if ch.flag("guard_dropped_by_a_contained_unwind") {
+                    // the guard goes out of scope because its owner panics; the panic is
+                    // caught, the thread lives on: dropped is dropped
+                    let _ = vx_core::catch(move || {
+                        let _owned = g;
+                        panic!("the guard's owner gives up");
+                    });
+                } else {
+                    drop(g);
+                }
                 model[id].alive = false;
                 obs.push(format!("remove#{id}"));
                 feats.push("removed");
